@@ -22,6 +22,7 @@ DECIDES = (
     "has opposite vectors on opposite sides, front=+observer, top=+ceiling and (right, back, top) right-handed (C18.FRAME-SIGNS)."
     " the finders' acceptance tests are purely absolute and strict, a plane distance is a projection onto a UNIT normal (part of C18.SCAN); viewing directions and distances are differences of points (C18.AFFINE-KINDS); a finder does not keep a reference to a list that clear()/backport() replaces (C18.STALE-ALIAS)."
     ' Squared distances are compared with squared tolerances (part of C18.SCAN); the corrected ceiling direction is perpendicular to the line of sight - identity modulo unit length in a polynomial domain (C18.ORTHOGONAL-FRAME); nothing computed from a call argument is cached on the re-orienter (C18.NO-STALE-CACHE).'
+    " The finders keep no on-demand cache of coordinates and hand out no container of their own (C18.LIVE-QUERIES); the observer's axis is served before the ceiling's before the derived one (C18.SIDE-PRIORITY)."
 )
 NOT_DECIDED = "exactness for arbitrary geometry (floating-point distances), convex-hull grouping of triangles into sides."
 ASSUMPTIONS = ["positions are modelled as integers on a line; norm(a - b) is |a - b|"]
